@@ -216,6 +216,8 @@ def main(argv=None):
     print("%s property=%s tier=%s seed=%d evaluations=%d distinct_nontrivial=%d shards=%d wall=%.1fs" % (
         verdict.upper(), prop, tier, seed, evaluations, n_distinct, len(shards), wall))
     if new:
+        for p in problems[:5]:
+            print("NOTE (also inconclusive): %s" % p.replace("\n", " | ")[:300])
         return 1
     if problems:
         for p in problems[:10]:
